@@ -21,7 +21,8 @@ structure SpecSt where
   awaiting : List (Nat × Nat) := []   -- (u, w): the reply to u's latest fetch of w's advertisement is still outstanding
   text : List (Nat × String) := []    -- the advertisement text each router was last seen to serve
   ever : List (Nat × Nat) := []       -- every link that has been up at some time in this history
-  copy : List ((Nat × Nat) × String) := []  -- (u, w): w's advertisement text when u last started to fetch it
+  copy : List ((Nat × Nat) × String) := []  -- (u, w): w's advertisement text that u last received
+  pendCopy : List ((Nat × Nat) × String) := []  -- (u, w): the text the outstanding fetch of u will deliver
 
 structure St where
   net : Net := []
@@ -36,6 +37,8 @@ structure St where
   /-- identifiers of the advertisement fetches started so far (stand for the sequence numbers, which
       strictly increase per neighbour state) -/
   fid : Nat := 0
+  /-- (u, w): the Interest of the latest fetch timed out and was not re-expressed (nothing is pending) -/
+  noPend : List (Nat × Nat) := []
   sp : SpecSt := {}
 
 def aseqOf (s : St) (p : Nat × Nat) : Nat := ((s.aseq.find? (·.1 == p)).map (·.2)).getD 0
@@ -370,39 +373,9 @@ def staleNbrs (s : St) (u : Nat) : List Nat :=
       w != u && !s.links.contains (u, w) && (aget ru.nbrs (s.keys.getD w 0)).isSome
   | none => []
 
-def step (s : St) (op : String) (got : String) : StepResult St :=
+/-- the ops handled by `stepCore`, plus the spec-side bookkeeping of advertisement texts and copies -/
+def stepRest (s : St) (op : String) (got : String) : StepResult St :=
   let sp := s.sp
-  match op.splitOn " " with
-  | ["tick"] =>
-    -- more than a dead interval passes; heartbeats (unchanged numbers) over the up links; then every router
-    -- runs its deadcheck sweep: only neighbours on links that are down are removed
-    if s.net.isEmpty && sp.n == 0 then { st := s, expected := some "skip" } else
-    let s1 := (List.range s.net.length).foldl (fun (s : St) u =>
-      let ws := staleNbrs s u
-      let net' := ws.foldl (fun (net : Net) w => match net.dead u w with | some (n2, _) => n2 | none => net) s.net
-      bumpVer s { s with net := net', aseq := s.aseq.filter fun p => !(p.1.1 == u && ws.contains p.1.2) } u) s
-    let staleS := sp.nbr.filter fun p => !sp.links.contains p
-    let sp1 := if got == "skip" || staleS.isEmpty then sp else
-      disturb { sp with nbr := sp.nbr.filter (fun p => sp.links.contains p),
-                        awaiting := sp.awaiting.filter (fun p => sp.links.contains p),
-                        copy := sp.copy.filter (fun c => sp.links.contains c.1) }
-    let r := stepCore { s1 with sp := sp1 } "check" got
-    { r with st := { r.st with sp := setTexts r.st.sp got },
-             cov := (if staleS.isEmpty then ["tick-stable-links"] else ["tick-removes-stale"]) ++ r.cov }
-  | ["restart", x] =>
-    match x.toNat? with
-    | some x =>
-      if !(x < s.net.length) then { st := s, expected := some "skip" } else
-      let id := s.keys.getD x 0
-      let specFails := if got == "skip" then [] else advFiniteFails s!"r{x}" got
-      let sp1 := if got == "skip" then sp else
-        setText (disturb { sp with nbr := sp.nbr.filter (·.1 != x), awaiting := sp.awaiting.filter (·.1 != x),
-                                    copy := sp.copy.filter (·.1.1 != x), flightsN := sp.flightsN.filter (·.1.1 != x) }) x (firstTok got)
-      let r := Router.start id
-      { st := { s with net := s.net.setAt x r, aseq := s.aseq.filter (·.1.1 != x), flights := s.flights.filter (·.1.1 != x), sp := sp1 },
-        expected := some (dumpRouter s.keys r ++ " ann=ok"), spec := specFails, cov := ["restart"] }
-    | none => { st := s, expected := some "bad-op" }
-  | _ =>
     let r := stepCore s op got
     let sp2 := r.st.sp
     if got == "skip" then r else
@@ -443,6 +416,79 @@ def step (s : St) (op : String) (got : String) : StepResult St :=
         else { r with st := { r.st with sp := sp3 } }
       | _, _ => r
     | _ => r
+
+def step (s : St) (op : String) (got : String) : StepResult St :=
+  let sp := s.sp
+  match op.splitOn " " with
+  | ["tick"] =>
+    -- more than a dead interval passes; heartbeats (unchanged numbers) over the up links; then every router
+    -- runs its deadcheck sweep: only neighbours on links that are down are removed
+    if s.net.isEmpty && sp.n == 0 then { st := s, expected := some "skip" } else
+    let s1 := (List.range s.net.length).foldl (fun (s : St) u =>
+      let ws := staleNbrs s u
+      let net' := ws.foldl (fun (net : Net) w => match net.dead u w with | some (n2, _) => n2 | none => net) s.net
+      bumpVer s { s with net := net', aseq := s.aseq.filter fun p => !(p.1.1 == u && ws.contains p.1.2) } u) s
+    let staleS := sp.nbr.filter fun p => !sp.links.contains p
+    let sp1 := if got == "skip" || staleS.isEmpty then sp else
+      disturb { sp with nbr := sp.nbr.filter (fun p => sp.links.contains p),
+                        awaiting := sp.awaiting.filter (fun p => sp.links.contains p),
+                        copy := sp.copy.filter (fun c => sp.links.contains c.1) }
+    let r := stepCore { s1 with sp := sp1 } "check" got
+    { r with st := { r.st with sp := setTexts r.st.sp got },
+             cov := (if staleS.isEmpty then ["tick-stable-links"] else ["tick-removes-stale"]) ++ r.cov }
+  | ["cfg", adv, dead] =>
+    match adv.toNat?, dead.toNat? with
+    | some adv, some dead =>
+      { st := s, expected := some (if configValid adv dead then "accept" else "reject"),
+        spec := if got == "accept" && !Spec.deadIntervalOk adv dead then
+            [⟨"config-dead-interval", "accepted", s!"the configuration check accepts advertise interval {adv} ms with dead interval {dead} ms: live neighbours are declared dead between their own heartbeats"⟩]
+          else [],
+        cov := [if configValid adv dead then "cfg-valid" else "cfg-invalid"] }
+    | _, _ => { st := s, expected := some "bad-op" }
+  | ["new", n, adv, dead] =>
+    match adv.toNat?, dead.toNat? with
+    | some adv, some dead =>
+      if configValid adv dead then
+        let r := stepCore s s!"new {n}" got
+        { r with cov := ["new-with-intervals"] ++ r.cov }
+      else
+        { st := {}, expected := some "rejected",
+          spec := if got.startsWith "ok" && !Spec.deadIntervalOk adv dead then
+              [⟨"config-dead-interval", "accepted", s!"routers start with advertise interval {adv} ms and dead interval {dead} ms"⟩]
+            else [],
+          cov := ["new-rejected"] }
+    | _, _ => { st := {}, expected := some "bad-op" }
+  | [tk, a, b] =>
+    if tk != "timeout" && tk != "outage" then stepRest s op got else
+    match a.toNat?, b.toNat? with
+    | some a, some b =>
+      let fl := flightsOf s (a, b)
+      let pendingI := parseField got "pending" == some "1"
+      let specFails := if got == "skip" then [] else advFiniteFails s!"r{a}" got
+      -- spec side: if nothing is pending any more, no reply is outstanding: the router has to cope by itself
+      let sp1 := if got == "skip" then sp else
+        setText (if pendingI then sp else { sp with awaiting := sp.awaiting.filter (· != (a, b)), pendCopy := sp.pendCopy.filter (·.1 != (a, b)) }) a (firstTok got)
+      if a < s.net.length && b < s.net.length && a != b && !fl.isEmpty && !s.noPend.contains (a, b) then
+        let ru := (s.net.get? a).getD (Router.start 0)
+        { st := { s with sp := sp1, noPend := if pendingI then s.noPend else (a, b) :: s.noPend },
+          expected := some (dumpRouter s.keys ru ++ s!" pending={if pendingI then 1 else 0} ann=ok"),
+          spec := specFails, cov := [if pendingI then s!"{tk}-retried" else s!"{tk}-gave-up"] }
+      else { st := { s with sp := sp1 }, expected := some "skip", spec := specFails }
+    | _, _ => stepRest s op got
+  | ["restart", x] =>
+    match x.toNat? with
+    | some x =>
+      if !(x < s.net.length) then { st := s, expected := some "skip" } else
+      let id := s.keys.getD x 0
+      let specFails := if got == "skip" then [] else advFiniteFails s!"r{x}" got
+      let sp1 := if got == "skip" then sp else
+        setText (disturb { sp with nbr := sp.nbr.filter (·.1 != x), awaiting := sp.awaiting.filter (·.1 != x),
+                                    copy := sp.copy.filter (·.1.1 != x), flightsN := sp.flightsN.filter (·.1.1 != x) }) x (firstTok got)
+      let r := Router.start id
+      { st := { s with net := s.net.setAt x r, aseq := s.aseq.filter (·.1.1 != x), flights := s.flights.filter (·.1.1 != x), sp := sp1 },
+        expected := some (dumpRouter s.keys r ++ " ann=ok"), spec := specFails, cov := ["restart"] }
+    | none => { st := s, expected := some "bad-op" }
+  | _ => stepRest s op got
 
 end C18Drv
 
